@@ -149,8 +149,11 @@ func (m *model) chain(s, ev int) (ids []int, failed bool) {
 			ids = append(ids, l.id)
 			if l.fail {
 				failed = true
-				if !pol.runAll {
+				if pol.after == stopAll {
 					return ids, true
+				}
+				if pol.after == stopLevel {
+					break
 				}
 			}
 		}
